@@ -121,10 +121,29 @@ def run(tier):
                    functions=['cat.Sum'], what='calling the lambdified sum substitutes in every term (got %r)' % (lam_,))
         suite.identity('sum.lambdify==subs', arr(lam_.eval()), arr(sub_.eval()), functions=['cat.Sum'],
                        what='lambdified sum called on values evaluates like the substituted sum')
+        # the lambdified sum is a function: a second call substitutes as well as the first
+        lam_fn = sm_.lambdify(x, y)
+        first_, second_ = lam_fn(0.25, 0.5), lam_fn(0.5, -0.25)
+        suite.fact('sum.lambdify.second_call', len(first_.terms) == len(second_.terms) == len(sm_.terms)
+                   and not any(t.free_symbols for t in second_.terms), functions=['cat.Sum'],
+                   what='calling the lambdified sum a second time gives all its terms again (got %r)' % (second_,))
+        suite.identity('sum.lambdify.second_call==subs', arr(second_.eval()), arr(sm_.subs([(x, 0.5), (y, -0.25)]).eval()),
+                       functions=['cat.Sum'])
         tsum = tensor.Box('v', Dim(1), Dim(2), [x, y]) + tensor.Box('w', Dim(1), Dim(2), [y, x * y])
         suite.fact('tensor.sum.free_symbols', tsum.free_symbols == {x, y}, functions=['cat.Sum'])
         suite.identity('tensor.sum.lambdify==subs', arr(tsum.lambdify(x, y)(2, 3).eval()), arr(tsum.subs([(x, 2), (y, 3)]).eval()),
                        functions=['cat.Sum'])
+    # tensors whose FIRST entry is a plain number and a later one symbolic: the substituted values keep their own kind
+    # (a non-integer real next to the integer 1, a complex number next to a float)
+    with suite.guard('Tensor.subs.mixed_entries', ['tensor.Tensor.subs']):
+        for nm, data, pairs in (('int first', [1, x, 2, y], [(x, 0.5), (y, 0.75)]), ('float first', [0.5, x, y, 1], [(x, 0.25j), (y, 2)]),
+                                ('int first, partial', [1, x * y, 0, y], [(x, 0.5)])):
+            tt = Tensor(Dim(2), Dim(2), data)
+            suite.identity('Tensor.subs[%s]' % nm, arr(tt.subs(pairs)), sub_arr(tt, pairs), extra=(x, y),
+                           functions=['tensor.Tensor.subs'], what='entrywise substitution, whatever the kind of the first entry')
+            bb = tensor.Box('b', Dim(2), Dim(2), data)
+            suite.identity('tensor.Box.subs.commutes[%s]' % nm, arr(bb.subs(pairs).eval()), sub_arr(bb.eval(), pairs), extra=(x, y),
+                           functions=['tensor.Tensor.subs', 'cat.Box.subs'])
     # numpy arrays as box data
     with suite.guard('tensor.Box(numpy data).subs', ['cat.rmap']):
         nbx = tensor.Box('v', Dim(1), Dim(2), numpy.array([x, 2 * y], dtype=object))
